@@ -130,7 +130,23 @@ def spec : Nat → List Cmd → Bool → Cmd → B → Option B
     | .exit code =>
       let c := match code with | some v => low8 v | none => b.st.last
       some { (b.setLast c) with exiting := true }
-    | .setE on => some { b with st := { b.st with errexit := on, last := 0 } }
+    | .setOpt o on => some (B.setLast { b with st := b.st.setOpt o on } 0)
+    | .cmdsubst c =>
+      -- a command substitution is a subshell; errexit is dropped unless inherit_errexit
+      match spec fuel fs sup c { b with st := { b.st with errexit := b.st.errexit && b.st.inheritErrexit }, level := 0 } with
+      | none => none
+      | some b1 =>
+        some (B.errexitCheck sup { b with st := { b.st with trace := b1.st.trace, last := b1.st.last } })
+    | .evalC c =>
+      match spec fuel fs sup c b with
+      | none => none
+      | some b1 => some (B.errexitCheck sup b1)
+    | .pipe codes lastc =>
+      match spec fuel fs sup lastc { b with level := 0 } with
+      | none => none
+      | some b1 =>
+        some (B.errexitCheck sup { b with st :=
+          { b.st with trace := b1.st.trace, last := pipeStatus b.st.pipefail (codes ++ [b1.st.last]) } })
 
 def specList : Nat → List Cmd → Bool → Cmds → B → Option B
   | fuel, fs, sup, cs, b =>
